@@ -10,6 +10,7 @@
 EXTENDS Layout
 
 CONSTANTS PixVariants,   \* subset of 1..9, see Pix below
+          HeadVariants,  \* subset of 1..3, see HeadOf below
           WithPreamble   \* set of BOOLEAN
 
 P(tag, vr, dl, salt) == [k |-> "P", tag |-> tag, vr |-> vr, dl |-> dl, salt |-> salt]
@@ -27,9 +28,10 @@ SeqEl(lm) == S(<<8, 4416>>, lm,
              <<I(lm, <<P(<<8, 24>>, "UI", 4, 5), S(<<64, 629>>, lm, <<I("E", <<>>)>>)>>),
                I("U", <<Rows>>)>>)
 
-Heads == {<<Modality, PatName, PatId, Rows>>,
-          <<Modality, SeqEl("U"), PatName>>,
-          <<Modality, SeqEl("E"), PatName>>}
+HeadOf(v) == CASE v = 1 -> <<Modality, PatName, PatId, Rows>>
+               [] v = 2 -> <<Modality, SeqEl("U"), PatName>>
+               [] v = 3 -> <<Modality, SeqEl("E"), PatName>>
+Heads == {HeadOf(v) : v \in HeadVariants}
 
 Pix(v) == CASE v = 1 -> <<>>                                     \* no pixel data
             [] v = 2 -> <<P(PixelTag, "OW", 4, 7)>>              \* native
